@@ -4,28 +4,60 @@ use crate::kani_support::*;
 use crate::{Decibels, Panning, PlaybackRate, Mix, Semitones};
 use crate::clock::ClockSpeed;
 
-// @ob id=C06.5a strength=complete tier=quick fn=tween/tweenable.rs::<{f32,f64,Decibels,Panning,PlaybackRate,Mix,Semitones} as Tweenable>::interpolate
-// @req a, b finite with |.| <= 1e6
-// @ens amount 0 returns a exactly; amount 1 returns b to rounding (relative 1e-6 for f32 types, 1e-15 for f64 types); wrapper types delegate to the scalar formula bit-for-bit
+// @ob id=C06.5a strength=complete tier=quick fn=tween/tweenable.rs::<{Decibels,Panning,Mix} as Tweenable>::interpolate
+// @req any f32 endpoints and any amount; <f32 as Tweenable>::interpolate replaced by its recording stub
+// @ens each wrapper type calls the f32 formula exactly once with its own two inner values and the same amount, and wraps the result unchanged
 #[kani::proof]
 #[kani::unwind(4)]
-fn c06_5a_endpoints_scalar_types() {
-    let a = any_f32_in(-1.0e6, 1.0e6);
-    let b = any_f32_in(-1.0e6, 1.0e6);
-    assert!(<f32 as Tweenable>::interpolate(a, b, 0.0) == a, "C06.5a: f32 amount 0");
-    let e = <f32 as Tweenable>::interpolate(a, b, 1.0);
-    assert!((e - b).abs() <= 0.25, "C06.5a: f32 amount 1 (|a|,|b| <= 1e6: one rounding of b - a and one of the sum)");
-    assert!(<Decibels as Tweenable>::interpolate(Decibels(a), Decibels(b), 1.0).0.to_bits() == e.to_bits(), "C06.5a: Decibels delegates");
-    assert!(<Panning as Tweenable>::interpolate(Panning(a), Panning(b), 1.0).0.to_bits() == e.to_bits(), "C06.5a: Panning delegates");
-    assert!(<Mix as Tweenable>::interpolate(Mix(a), Mix(b), 1.0).0.to_bits() == e.to_bits(), "C06.5a: Mix delegates");
-    assert!(<Decibels as Tweenable>::interpolate(Decibels(a), Decibels(b), 0.0).0 == a, "C06.5a: Decibels amount 0");
-    let c = any_f64_in(-1.0e6, 1.0e6);
-    let d = any_f64_in(-1.0e6, 1.0e6);
-    assert!(<f64 as Tweenable>::interpolate(c, d, 0.0) == c, "C06.5a: f64 amount 0");
-    let g = <f64 as Tweenable>::interpolate(c, d, 1.0);
-    assert!((g - d).abs() <= 4.7e-10, "C06.5a: f64 amount 1");
-    assert!(<PlaybackRate as Tweenable>::interpolate(PlaybackRate(c), PlaybackRate(d), 1.0).0.to_bits() == g.to_bits(), "C06.5a: PlaybackRate delegates");
-    assert!(<Semitones as Tweenable>::interpolate(Semitones(c), Semitones(d), 1.0).0.to_bits() == g.to_bits(), "C06.5a: Semitones delegates");
+#[kani::stub(<f32 as Tweenable>::interpolate, interpolate_f32_rec)]
+fn c06_5a_f32_wrappers_delegate() {
+    let a: f32 = kani::any();
+    let b: f32 = kani::any();
+    let t: f64 = kani::any();
+    let r = match kani::any::<u8>() % 3 {
+        0 => <Decibels as Tweenable>::interpolate(Decibels(a), Decibels(b), t).0,
+        1 => <Panning as Tweenable>::interpolate(Panning(a), Panning(b), t).0,
+        _ => <Mix as Tweenable>::interpolate(Mix(a), Mix(b), t).0,
+    };
+    unsafe {
+        assert!(IP32_N == 1 && IP32_A[0].to_bits() == a.to_bits() && IP32_B[0].to_bits() == b.to_bits() && IP32_T[0].to_bits() == t.to_bits(), "C06.5a: delegates to the scalar formula with the same arguments");
+        assert!(r.to_bits() == IP32_RET[0].to_bits(), "C06.5a: and returns its result");
+    }
+    kani::cover!(true);
+}
+
+// @ob id=C06.5e strength=complete tier=quick fn=tween/tweenable.rs::<{PlaybackRate,Semitones} as Tweenable>::interpolate
+// @req any f64 endpoints and any amount; <f64 as Tweenable>::interpolate replaced by its recording stub
+// @ens each wrapper type calls the f64 formula exactly once with its own inner values and the same amount, and wraps the result unchanged
+#[kani::proof]
+#[kani::unwind(4)]
+#[kani::stub(<f64 as Tweenable>::interpolate, interpolate_f64_rec)]
+fn c06_5e_f64_wrappers_delegate() {
+    let c: f64 = kani::any();
+    let d: f64 = kani::any();
+    let t: f64 = kani::any();
+    let r = if kani::any() { <PlaybackRate as Tweenable>::interpolate(PlaybackRate(c), PlaybackRate(d), t).0 } else { <Semitones as Tweenable>::interpolate(Semitones(c), Semitones(d), t).0 };
+    unsafe {
+        assert!(IP_N == 1 && IP_A[0].to_bits() == c.to_bits() && IP_B[0].to_bits() == d.to_bits() && IP_T[0].to_bits() == t.to_bits(), "C06.5e: delegates to the scalar formula with the same arguments");
+        assert!(r.to_bits() == IP_RET[0].to_bits(), "C06.5e: and returns its result");
+    }
+    kani::cover!(true);
+}
+
+// @ob id=C06.5f strength=complete tier=quick fn=tween/tweenable.rs::<{f32,f64} as Tweenable>::interpolate
+// @req finite endpoints with |.| <= 1e30
+// @ens amount 0 returns the start value exactly (a tween that has not progressed has not moved); amount 1 lands within one rounding step of the target: for |a|,|b| <= 1e6, |result - b| <= 0.25 (f32) / 4.7e-10 (f64)
+#[kani::proof]
+#[kani::unwind(4)]
+fn c06_5f_scalar_endpoints() {
+    let a = any_f32_in(-1.0e30, 1.0e30);
+    let b = any_f32_in(-1.0e30, 1.0e30);
+    assert!(<f32 as Tweenable>::interpolate(a, b, 0.0) == a, "C06.5f: f32 amount 0");
+    let c = any_f64_in(-1.0e30, 1.0e30);
+    let d = any_f64_in(-1.0e30, 1.0e30);
+    assert!(<f64 as Tweenable>::interpolate(c, d, 0.0) == c, "C06.5f: f64 amount 0");
+    if a.abs() <= 1.0e6 && b.abs() <= 1.0e6 { assert!((<f32 as Tweenable>::interpolate(a, b, 1.0) - b).abs() <= 0.25, "C06.5f: f32 amount 1"); }
+    if c.abs() <= 1.0e6 && d.abs() <= 1.0e6 { assert!((<f64 as Tweenable>::interpolate(c, d, 1.0) - d).abs() <= 4.7e-10, "C06.5f: f64 amount 1"); }
     kani::cover!(a < b);
 }
 
@@ -43,13 +75,13 @@ fn c06_5b_constant_tween() {
     kani::cover!(t > 0.0 && t < 1.0);
 }
 
-// @ob id=C06.5c strength=bounded tier=quick bound="a, b, amount restricted to 5 significant mantissa bits" fn=tween/tweenable.rs::<f64 as Tweenable>::interpolate
+// @ob id=C06.5c strength=bounded tier=thorough timeout=3600 bound="a, b, amount restricted to 4 significant mantissa bits" fn=tween/tweenable.rs::<f64 as Tweenable>::interpolate
 // @req |a|,|b| <= 1e6, amount in [0,1]
 // @ens the value never leaves [min(a,b), max(a,b)] (widened by 2.4e-10) and is monotone in the amount
 #[kani::proof]
 #[kani::unwind(4)]
 fn c06_5c_range_f64() {
-    let m = (1u64 << 47) - 1;
+    let m = (1u64 << 48) - 1;
     let a = any_f64_in(-1.0e6, 1.0e6);
     let b = any_f64_in(-1.0e6, 1.0e6);
     let t = any_f64_in(0.0, 1.0);
@@ -64,22 +96,28 @@ fn c06_5c_range_f64() {
 }
 
 // @ob id=C06.5d strength=complete tier=quick fn=clock/clock_speed.rs::<ClockSpeed as Tweenable>::interpolate
-// @req a, b clock speeds in any units with values in [1e-3, 1e6]
-// @ens the result carries the unit of the target b; amount 1 gives b's value to rounding; amount 0 gives a converted to b's unit exactly
+// @req a, b clock speeds in any units with values in [1e-3, 1e6]; f64::interpolate replaced by its recording stub
+// @ens the result carries the unit of the target b; it is interpolate(a's speed expressed in b's unit (a's own value when the units agree; the unit conversion itself is C19.4), b's value, amount): one call
 #[kani::proof]
 #[kani::unwind(4)]
+#[kani::stub(<f64 as Tweenable>::interpolate, interpolate_f64_rec)]
 fn c06_5d_clock_speed() {
     let va = any_f64_in(1.0e-3, 1.0e6);
     let vb = any_f64_in(1.0e-3, 1.0e6);
     let mk = |k: u8, v: f64| match k % 3 { 0 => ClockSpeed::SecondsPerTick(v), 1 => ClockSpeed::TicksPerSecond(v), _ => ClockSpeed::TicksPerMinute(v) };
     let (ka, kb): (u8, u8) = (kani::any(), kani::any());
     let (a, b) = (mk(ka, va), mk(kb, vb));
-    let z = <ClockSpeed as Tweenable>::interpolate(a, b, 0.0);
-    let o = <ClockSpeed as Tweenable>::interpolate(a, b, 1.0);
-    match b {
-        ClockSpeed::SecondsPerTick(v) => { assert!(matches!(z, ClockSpeed::SecondsPerTick(x) if x == a.as_seconds_per_tick()), "C06.5d: amount 0"); assert!(matches!(o, ClockSpeed::SecondsPerTick(x) if (x - v).abs() <= 1.0e-9 * (1.0 + v + a.as_seconds_per_tick())), "C06.5d: amount 1"); }
-        ClockSpeed::TicksPerSecond(v) => { assert!(matches!(z, ClockSpeed::TicksPerSecond(x) if x == a.as_ticks_per_second()), "C06.5d: amount 0"); assert!(matches!(o, ClockSpeed::TicksPerSecond(x) if (x - v).abs() <= 1.0e-9 * (1.0 + v + a.as_ticks_per_second())), "C06.5d: amount 1"); }
-        ClockSpeed::TicksPerMinute(v) => { assert!(matches!(z, ClockSpeed::TicksPerMinute(x) if x == a.as_ticks_per_minute()), "C06.5d: amount 0"); assert!(matches!(o, ClockSpeed::TicksPerMinute(x) if (x - v).abs() <= 1.0e-9 * (1.0 + v + a.as_ticks_per_minute())), "C06.5d: amount 1"); }
+    let amount: f64 = kani::any();
+    let z = <ClockSpeed as Tweenable>::interpolate(a, b, amount);
+    unsafe {
+        assert!(IP_N == 1 && IP_B[0].to_bits() == vb.to_bits() && IP_T[0].to_bits() == amount.to_bits(), "C06.5d: interpolates towards b's value by the given amount");
+        assert!(IP_A[0] > 0.0 && IP_A[0].is_finite(), "C06.5d: from a's speed converted to a positive finite value");
+        if ka % 3 == kb % 3 { assert!(IP_A[0].to_bits() == va.to_bits(), "C06.5d: same unit: from a's own value"); }
+        match b {
+            ClockSpeed::SecondsPerTick(_) => assert!(matches!(z, ClockSpeed::SecondsPerTick(x) if x.to_bits() == IP_RET[0].to_bits()), "C06.5d: in seconds per tick"),
+            ClockSpeed::TicksPerSecond(_) => assert!(matches!(z, ClockSpeed::TicksPerSecond(x) if x.to_bits() == IP_RET[0].to_bits()), "C06.5d: in ticks per second"),
+            ClockSpeed::TicksPerMinute(_) => assert!(matches!(z, ClockSpeed::TicksPerMinute(x) if x.to_bits() == IP_RET[0].to_bits()), "C06.5d: in ticks per minute"),
+        }
     }
     kani::cover!(ka % 3 != kb % 3);
 }
